@@ -4947,7 +4947,12 @@ bool RemapCompareLess(FunctionRemap *in1, FunctionRemap *in2) {
 
   // ok maybe something to do with return strength..
 
-  return false;
+  // Break ties in a way that does not depend on where the remaps happen to
+  // live in memory, so that the generated code is reproducible.
+  if (in1->_wrapper_index != in2->_wrapper_index) {
+    return (in1->_wrapper_index < in2->_wrapper_index);
+  }
+  return (in1->_function_signature < in2->_function_signature);
 }
 
 /**
